@@ -392,6 +392,16 @@ def run_sequence(rec, pool, pr, rnd, nops, tmp, fresh_rate):
                     pass
             rec.count('cache_floods')
             rec.count('cache_flood_expressions', nflood)
+            # ... in particular a regular expression never seen before, written in another letter case than the statement text
+            e3 = rnd.choice(['regex("netflix(%d)?")', 'regex("^uBeR(%d)?")', 'regex("costco|%d")', 'len(extract("(star.?bucks)(%d)?")) > 0']) % flood_salt
+            t3 = rnd.choice([t for t in pool['txns'] if t.get('description')] or pool['txns'])
+            flooded.append((e3, e3.split('"')[1]))
+            got3 = do_eval(e3, t3, {}, rows)
+            want3 = pr.ask({'op': 'eval', 'expr': e3, 'txn': O.jtxn(t3), 'vars': {}, 'rows': rows_to_json(rows)})
+            rec.count('eval_vs_pristine')
+            if got3 != want3 and 'oracle_error' not in want3:
+                rec.violation('history-dependent-evaluation:after-many-distinct-expressions', f'{e3!r} on {t3.get("description")!r} after {nflood} other regular expressions: '
+                              f'{got3} here, {want3} in a pristine process', {'kind': 'history', 'step': step, 'expr': e3, 'txn': O.jtxn(t3)})
         if cur is None or op == 'load':
             nm = rnd.choice(names)
             mode = rnd.choice(['first_match', 'first_match', 'most_specific'])
